@@ -575,10 +575,10 @@ void mq_run(void)
 
 /* =================================================================================== bar-sim */
 #define BAR_MAXT 8
-#define BAR_MAXUSE 64
+#define BAR_MAXUSE 70000 /* "indefinitely": a few runs cross the barrier more often than a 16-bit counter can count */
 static int bar_threads, bar_uses;
-static uint64_t bar_enter[BAR_MAXUSE][BAR_MAXT], bar_leave[BAR_MAXUSE][BAR_MAXT];
-static int bar_leaders[BAR_MAXUSE], bar_entered[BAR_MAXUSE];
+static uint64_t (*bar_enter)[BAR_MAXT], (*bar_leave)[BAR_MAXT];
+static int *bar_leaders, *bar_entered;
 static uint64_t bar_overlaps;
 
 static void *bar_thread(void *arg)
@@ -615,6 +615,10 @@ void bar_run(void)
 	mk = &RK[0];
 	bar_threads = (int)(P.u_threads < BAR_MAXT ? P.u_threads : BAR_MAXT);
 	bar_uses = (int)(P.u_ops < BAR_MAXUSE ? P.u_ops : BAR_MAXUSE);
+	bar_enter = calloc((size_t)bar_uses, sizeof(*bar_enter));
+	bar_leave = calloc((size_t)bar_uses, sizeof(*bar_leave));
+	bar_leaders = calloc((size_t)bar_uses, sizeof(*bar_leaders));
+	bar_entered = calloc((size_t)bar_uses, sizeof(*bar_entered));
 	mk->global_config->n_threads = (unsigned)bar_threads;
 	for(int t = 0; t < bar_threads; t++)
 		sim_spawn(VTK_UNIT, 0, bar_thread, (void *)(intptr_t)t);
